@@ -25,6 +25,7 @@ RULE = ("family seq: ALL sequences over {initialize, start, step, stop, run_up_t
         "overlap: fixed list of forced overlaps; (family seq also records the run state the caller sees the moment an accepted start returns); family storm: random command storms with delay injection; non-trivial = "
         "the case reached >= 3 distinct abstract states or overlapped a command with a run-thread transition; distinct = "
         "canonical case hash")
+RULE += "; random sequences also contain bounds just before the end (':late') and initialisations that the model aborts ('initialize:fail')"
 ASSUMPTIONS = ["end_replication has no docstring: where it cannot take effect (not initialised, already ended) only a refusal that changes nothing satisfies 'takes effect or is refused'",
                "a bounded run whose bound lies before the clock may be refused or be an empty segment",
                "'the run thread terminates' is restated as: at quiescence after ENDED / cleanup the thread is dead, never parked again",
@@ -115,6 +116,10 @@ def gen_case(rng, tier, i):
             seq.insert(rng.randint(1, len(seq)), rng.choice(["run_up_to:zero", "run_up_to_including:zero"]))
         if rng.random() < 0.4:
             seq.insert(rng.randint(1, len(seq)), rng.choice(["run_up_to:late", "run_up_to_including:late"]))
+        if rng.random() < 0.3:
+            # an initialize that the model aborts (its construct_model raises): the simulator is not initialised afterwards,
+            # and a cleanup() after it ends the run thread like any other cleanup
+            seq.insert(rng.randint(0, len(seq)), "initialize:fail")
         return {"fam": "seq", "clock": clock, "seq": seq, "oneshot": rng.random() < 0.5}
     i -= nrand
     if i < ngate:
@@ -192,6 +197,7 @@ def _run_seq(case, ctx):
     warm, end = start + tnum(prog, prog["rep"]["warmup"]), start + tnum(prog, prog["rep"]["length"])
     auto = None
     fed = 0
+    parked_ok = False
     states = set()
     try:
         for ci, c in enumerate(case["seq"]):
@@ -199,6 +205,27 @@ def _run_seq(case, ctx):
             before = h.snapshot()
             bstate = _abstract(before)
             nfirst, hfirst, tfirst = len(h.nlog), len(h.hlog), len(h.timeline)
+            if c in ("initialize", "cleanup"):
+                parked_ok = False
+            if c == "initialize:fail":
+                def _boom(model):
+                    raise RuntimeError("the model's construct_model failed")
+                h.on_construct = _boom
+                out = h.cmd("initialize")
+                h.on_construct = None
+                ctx.count("initializations_aborted_by_the_model")
+                if not h.wait_quiescent(20):
+                    ctx.viol("hang:no-quiescence-after-command", {**w, "snapshot": h.snapshot()})
+                    return
+                snap = h.snapshot()
+                if out != "RuntimeError" or _abstract(snap) != "NI":
+                    ctx.viol(f"aborted-initialize:{out}:{_abstract(snap)}", {**w, "before": before, "after": snap})
+                    return
+                pref.apply("cleanup")       # (abstract state: not initialised)
+                parked_ok = True            # (the run thread of the aborted attempt stays parked until a cleanup: not judged)
+                auto = None
+                states.add("NI")
+                continue
             if c.endswith(":nan"):
                 exp = {"outcome": "refused", "seg": [], "notes": [], "state": pref.state}
                 out = h.cmd(c[:-4], math.nan)
@@ -316,7 +343,7 @@ def _run_seq(case, ctx):
             return
         # every run thread except the one of a still resumable simulator must terminate (5 s watchdog: a thread that
         # parked again in its wait never terminates)
-        cur = h.worker() if pref.state in ("II", "SS") else None
+        cur = h.worker() if (pref.state in ("II", "SS") or parked_ok) else None
         for wk in h.workers:
             if wk is cur:
                 continue
